@@ -457,12 +457,12 @@ class Dispatcher(BaseDispatcher, Generic[ContextType]):
                         error=pjrpc.exceptions.InvalidRequestError(data="batch too large"),
                     )
                 else:
-                    response = self._batch_response(
-                        *(
-                            resp for resp in (self._request_handler(request, context) for request in request)
-                            if not isinstance(resp, UnsetType)
-                        ),
-                    )
+                    responses = [
+                        resp for resp in (self._request_handler(request, context) for request in request)
+                        if not isinstance(resp, UnsetType)
+                    ]
+                    # a batch of notifications is not answered at all (an empty array is not a valid response)
+                    response = self._batch_response(*responses) if responses else UNSET
             else:
                 response = self._request_handler(request, context)
 
@@ -603,13 +603,13 @@ class AsyncDispatcher(BaseDispatcher, Generic[ContextType]):
                         error=pjrpc.exceptions.InvalidRequestError(data="batch too large"),
                     )
                 else:
-                    response = self._batch_response(
-                        *(
-                            resp
-                            for resp in await asyncio.gather(*(self._request_handler(req, context) for req in request))
-                            if resp
-                        ),
-                    )
+                    responses = [
+                        resp
+                        for resp in await asyncio.gather(*(self._request_handler(req, context) for req in request))
+                        if resp
+                    ]
+                    # a batch of notifications is not answered at all (an empty array is not a valid response)
+                    response = self._batch_response(*responses) if responses else UNSET
             else:
                 response = await self._request_handler(request, context)
 
